@@ -211,23 +211,28 @@ def r2_restore(ctx, subs: List[ClassInfo]) -> None:
 def r3_permutation(ctx) -> None:
   ci = ctx.index.need_class('vizier._src.benchmarks.experimenters.permuting_experimenter.PermutingExperimenter')
   init = ci.methods['__init__']
+  # the table: any mapping built from zip(E, P) where P is (a local holding) <rng>.permuted(E) / permutation(E) of the
+  # *same* expression E - as a dict comprehension over the zip, or dict(zip(E, P))
   perm_src = None
-  for x in ast.walk(init.node):
-    if isinstance(x, ast.Assign) and isinstance(x.value, ast.Call) and isinstance(x.value.func, ast.Attribute) \
-        and x.value.func.attr in ('permuted', 'permutation') and x.value.args:
-      perm_src = (x.targets[0].id if isinstance(x.targets[0], ast.Name) else None, unparse(x.value.args[0], 0),
-                  dotted(x.value.func.value))
   ok = False
-  if perm_src:
-    for x in ast.walk(init.node):
-      if isinstance(x, (ast.DictComp,)) and x.generators and isinstance(x.generators[0].iter, ast.Call) \
-          and dotted(x.generators[0].iter.func) == 'zip' and len(x.generators[0].iter.args) == 2:
-        a0, a1 = [unparse(a, 0) for a in x.generators[0].iter.args]
-        k, v = unparse(x.key, 0), unparse(x.value, 0)
-        tnames = [unparse(t, 0) for t in x.generators[0].target.elts] if isinstance(x.generators[0].target, ast.Tuple) else []
-        ok = a0 == perm_src[1] and a1 == perm_src[0] and tnames == [k, v]
+  zips = [z for z in ast.walk(init.node) if isinstance(z, ast.Call) and dotted(z.func) == 'zip' and len(z.args) == 2]
+  for z in zips:
+    keys_e, vals_e = z.args
+    pv = flow.resolve_local(init.node, vals_e)
+    if not (isinstance(pv, ast.Call) and isinstance(pv.func, ast.Attribute) and pv.func.attr in ('permuted', 'permutation') and pv.args):
+      continue
+    perm_src = (None, unparse(pv.args[0], 0), dotted(pv.func.value))
+    same = unparse(flow.resolve_local(init.node, keys_e), 0) == unparse(flow.resolve_local(init.node, pv.args[0]), 0)
+    par = getattr(z, '_vz_parent', None)
+    as_dict = isinstance(par, ast.Call) and dotted(par.func) == 'dict' and par.args and par.args[0] is z
+    as_comp = False
+    if isinstance(par, ast.comprehension):
+      comp = getattr(par, '_vz_parent', None)
+      if isinstance(comp, ast.DictComp) and isinstance(par.target, ast.Tuple) and len(par.target.elts) == 2 and not par.ifs:
+        as_comp = [unparse(t, 0) for t in par.target.elts] == [unparse(comp.key, 0), unparse(comp.value, 0)]
+    ok = ok or (same and (as_dict or as_comp))
   ctx.check(ok, 'R3', 'permutation table is a bijection by construction', init.node,
-            '{a: b for a, b in zip(E, rng.permuted(E))} over the same E',
+            'mapping over zip(E, rng.permuted(E)) for one expression E',
             'the permutation table is not built from an expression and a permutation of that same expression: '
             'it need not be a bijection of the feasible values', construct='perm-table', func=init.qualname)
   seeded = any(isinstance(x, ast.Call) and (dotted(x.func) or '').endswith('default_rng') and x.args
